@@ -72,8 +72,27 @@ func (e *Env) Finish() {
 	}
 }
 
-// Close stops the cron goroutine of the provider.
-func (e *Env) Close() { e.Erp.Cron.Stop() }
+// CronStopsAbandoned counts Cron.Stop calls that did not return (see Close).
+var CronStopsAbandoned int64
+
+// Close stops the cron goroutine of the provider. krotik/common's Cron.Stop
+// sends on the stop channel while holding the cron lock; when the cron
+// goroutine's one-second tick fires at that moment it waits for the same lock
+// and both block for ever (seen once in a race-build run under load). That is
+// outside /repo and outside C11/C12, so Stop runs on a helper goroutine and is
+// abandoned (two parked goroutines are left behind) if it does not come back.
+func (e *Env) Close() {
+	done := make(chan struct{})
+	go func() {
+		e.Erp.Cron.Stop()
+		close(done)
+	}()
+	select {
+	case <-done:
+	case <-time.After(3 * time.Second):
+		atomic.AddInt64(&CronStopsAbandoned, 1)
+	}
+}
 
 // Compile parses and validates a small program against the provider.
 func (e *Env) Compile(name, src string) (*parser.ASTNode, error) {
@@ -264,6 +283,19 @@ func lockState(s string) bool {
 	return false
 }
 
+// lockTakenByEcal tells whether the innermost frame below the sync/runtime
+// frames is krotik/ecal code, i.e. the lock being acquired is one of ecal's
+// own and not one of the harness or of a library.
+func (g *G) lockTakenByEcal() bool {
+	for _, f := range g.Frames {
+		if strings.HasPrefix(f, "sync.") || strings.HasPrefix(f, "runtime.") || strings.HasPrefix(f, "internal/") {
+			continue
+		}
+		return strings.HasPrefix(f, "github.com/krotik/ecal/")
+	}
+	return false
+}
+
 // LockStuck evaluates a stuck-state witness on one dump: among the goroutines
 // that did not exist before the scenario (pre), every one that is executing
 // ECAL interpreter or scope code is parked in a lock acquisition, and there is
@@ -288,7 +320,7 @@ func LockStuckStacks(pre map[uint64]bool) (stuck bool, frame string, parked int,
 		if i < 0 {
 			continue
 		}
-		if !lockState(g.State) {
+		if !lockState(g.State) || !g.lockTakenByEcal() {
 			return false, "", 0, nil
 		}
 		parked++
